@@ -1277,6 +1277,10 @@ def _execute(case):
                 continue
             sq = seq_at(k)
             last = sq[-1] if sq else None
+            if label == 'W':
+                # a checkpoint in the middle of another connection's CLOSING / CLOSED window: an accepted connection
+                # whose CONNECTED report is still being delivered is registered only afterwards (not judged here)
+                continue
             if last == 'CONNECTED':
                 once(k, f'C10/registry-missing:CONNECTED:{direction(r)}',
                             f'{where}: {desc(r)} reported {sq} but is not in network.peer_connections ({ctx_txt})')
@@ -1297,7 +1301,7 @@ def _execute(case):
                      f'{where}: {desc(recs[k])} reported {seq_at(k)} (CLOSED more than 1 s ago) but the remote '
                      f'endpoint has seen neither EOF nor a reset ({ctx_txt})')
         unowned = [name for name, owner in cp['open_unowned'] if owner not in contaminated and owner not in explained]
-        if unowned:
+        if unowned and label != 'W':
             res.violate('C10/open-socket-not-registered',
                         f'{where}: library-side sockets still open that do not belong to a registered CONNECTED '
                         f'connection: {unowned} ({ctx_txt})')
@@ -1321,6 +1325,13 @@ def _execute(case):
             if k in contaminated or k in explained:
                 continue
             sq = [s[0] for s in r.states[:cp_t['nstates'].get(k, 0)]]
+            sq_a = [s[0] for s in r.states[:cp_a['nstates'].get(k, 0)]]
+            if (sq_a and sq_a[-1] == 'CLOSING') or \
+                    (sq and sq[-1] == 'CLOSING' and getattr(getattr(r, 'tr', None), '_c10_slow_close', None)):
+                # its close was already in progress when network.disconnect() was called (a slowly confirmed close, also
+                # one started by an earlier network.disconnect() of the case): disconnect() returns early for such a
+                # connection by design; it has to end CLOSED by checkpoint B
+                continue
             if not sq or sq[-1] != 'CLOSED':
                 res.violate(f'C10/network-disconnect-left-open:{direction(r)}',
                             f'{desc(r)} was registered when network.disconnect() was called; 50 ms after it returned '
